@@ -27,7 +27,9 @@ _GEN = ('one SplitMix64 state per stream; corpus first (unit right triangle + ra
         'by category -- inside, outside (triangle: the other half of the parallelogram u,v in (0,1), u+v>1; disk: beyond the rim, in the hole, '
         'outside the sector), behind, parallel -- from a random direction, direction length 1 or 1e-3..1e3 (1e-6..1e6 rarely); boundary stream: '
         'u=0, v=0, u+v=1, vertices, rim, inner rim, phi_max, phi=0, centre, cone edge, each +-{0,1e-16..1e-3}; t ~ 100eps(1+-d); a ~ +-100eps(1+-d); '
-        'den ~ +-eps(1+-d); t ~ 0+-d; pairs of rays reaching the same surface point from both sides (C13). ')
+        'den ~ +-eps(1+-d); t ~ 0+-d; pairs of rays reaching the same surface point from both sides (C13). From a second generator state (the other cases '
+        'do not depend on it; correspondence only): Plane3D::test_point (defining point, points of the plane up to rounding, +-1e-17..1e-9 off, clearly off, raw axis '
+        'planes), Ray3D::advance (t negative / zero / 1e-12..1e12), DistantSource3D::area. ')
 RULE = {
     'C02': 'pflat/C02flat: ' + _GEN + 'emphasis: 30% boundary, 5% pairs. non-trivial = a ray case (not a constructor/area case); distinct = distinct (op, object bits, ray bits)',
     'C03': 'pflat/C03flat: same generator, emphasis 55% decision-boundary cases',
